@@ -242,6 +242,11 @@ pub fn parser_stream(data: &[u8], which: u8) -> CaseResult {
 
 pub type Entry = fn(&[u8]) -> CaseResult;
 
+/// C20: the bytes are the header block as read from the local application.
+pub fn http_head_raw(d: &[u8]) -> CaseResult {
+    c20::check_http_head(d)
+}
+
 fn sb_server(d: &[u8]) -> CaseResult {
     session_bytes(d, true)
 }
@@ -267,6 +272,7 @@ pub fn targets() -> Vec<(&'static str, &'static str, Entry, usize, u64)> {
         ("session_bytes_client", "C20", sb_client as Entry, 2048, 600_000),
         ("socks_addr_stream", "C20", p0 as Entry, 512, 1_000_000),
         ("uot_stream", "C20", p1 as Entry, 512, 1_000_000),
+        ("http_head_raw", "C20", http_head_raw as Entry, 1024, 2_000_000),
     ]
 }
 
@@ -314,6 +320,10 @@ pub fn gen_corpus(dir: &std::path::Path) {
     head.extend_from_slice(&all);
     w("session_bytes_server", "all", head.clone());
     w("session_bytes_client", "all", head);
+    // hostile and plain header blocks
+    for (i, h) in ["GET http://h:80/p?q HTTP/1.1\r\nHost: h\r\nAccept: */*\r\n\r\nbody", "CONNECT [::1]:443 HTTP/1.1\r\nHost: [::1]:443\r\n\r\n", "GET / HTTP/1.1\r\nhos\u{e9}: x\r\nHost: a:b:c\r\n\r\n", "GET http://]:/ HTTP/1.1\r\n\r\n"].iter().enumerate() {
+        w("http_head_raw", &format!("head{i}"), h.as_bytes().to_vec());
+    }
     // schemes
     for (i, s) in [anytls_rs::padding::DEFAULT_PADDING_SCHEME, "stop=0", "stop=3\n1=70000-70000\n2=c,5-9,c,2147483648-4294967295", "stop=100\r\n1=7-8,c,9-9\r\n1=30-31"].iter().enumerate() {
         let mut v = vec![4u8, 0, 1, 2, 1, 0, 200, 0, 0, 2, 3, 0, 5, 0, 0, 4, 0, 0, 0, 7];
